@@ -538,17 +538,19 @@ pub fn panic_msg(p: &Box<dyn Any + Send>) -> String {
 /// Runs one case on a fresh current-thread tokio runtime (un-paused; it reads the virtual clock).
 /// Everything the case spawned dies with the runtime.
 pub fn run_case<T>(f: impl Future<Output = T>) -> T {
-    let rt = tokio::runtime::Builder::new_current_thread()
-        .enable_time()
-        .build()
-        .expect("runtime");
-    // start each case on a whole millisecond with a fresh epoch
+    // start each case on a whole millisecond with a fresh epoch; the runtime (whose timer wheel
+    // counts milliseconds from its own creation) is built after that alignment, so that a previous
+    // case which left the clock between two ticks cannot shift this case's timers
     let n = vclock::now_ns();
     let rem = n % 1_000_000;
     if rem != 0 {
         vclock::advance_ns(1_000_000 - rem);
     }
     EPOCH_NS.with(|e| e.set(vclock::now_ns()));
+    let rt = tokio::runtime::Builder::new_current_thread()
+        .enable_time()
+        .build()
+        .expect("runtime");
     let out = rt.block_on(f);
     drop(rt);
     // leave a gap so that nothing of the next case coincides with leftovers
